@@ -13,9 +13,15 @@ MaskAt0 == Mask({0}, {})
 MaskAsRev == Mask({}, {<<1, 0>>})
 MaskAsIdx == Mask({N - 1}, {})
 
+(* measure masks: [fmt, els]; a termination without measure conditions: npts = <<0, 0>> *)
+NoMMask == [fmt |-> "none", els |-> {}]
+MMask(f, e) == [fmt |-> f, els |-> e]
+
 Conf(atOn, asOn, atTol, atG, atTgt, asTol, asG, initAt, initAs) ==
   [atOn |-> atOn, asOn |-> asOn, atTol |-> atTol, atG |-> atG, atTgt |-> atTgt,
-   asTol |-> asTol, asG |-> asG, initAt |-> initAt, initAs |-> initAs, exact |-> TRUE]
+   asTol |-> asTol, asG |-> asG, initAt |-> initAt, initAs |-> initAs, exact |-> TRUE,
+   npts |-> <<0, 0>>, wtOn |-> FALSE, psOn |-> FALSE, wtTol |-> Tol0, wtG |-> 1, psTol |-> Tol0, psG |-> 1,
+   initWt |-> NoMMask, initPs |-> NoMMask]
 
 (* CollapseAt(None, 1, 2) + CollapseAs(1, 1), no masks: pins at the best point, ties, pinned-and-tied parameters *)
 CBoth1   == Conf(TRUE, TRUE, Tol1, 2, TgtNone, Tol1, 1, NoMask, NoMask)
@@ -42,4 +48,57 @@ ConfsQuick == {CBoth1, CMasked}
 ConfsAll == {CBoth1, CMasked, CList, CAtOnly, CAsOnly, CMix1, CMix2, CListAll}
 ConfsOne == {CBoth1}
 ConfsScript == {CBoth1, CMasked, CList, CMix1, CMix2, CAtOnly, CListAll}
+
+-----------------------------------------------------------------------------
+(* MEASURE terminations Or(stop, CollapseWeight, CollapsePosition) on a product measure of shape npts *)
+MConf(npts, wtOn, psOn, wtTol, wtG, psTol, psG, initWt, initPs) ==
+  [Conf(FALSE, FALSE, Tol0, 1, TgtNone, Tol0, 1, NoMask, NoMask) EXCEPT
+     !.npts = npts, !.wtOn = wtOn, !.psOn = psOn, !.wtTol = wtTol, !.wtG = wtG, !.psTol = psTol, !.psG = psG,
+     !.initWt = initWt, !.initPs = initPs]
+
+(* model points: one pattern per factor (weights in units, positions), flattened w[0] p[0] w[1] p[1] ... *)
+RECURSIVE PointsOf(_, _)
+PointsOf(pats, m) == IF m = 1 THEN pats ELSE {a \o b : a \in pats, b \in PointsOf(pats, m - 1)}
+(* 2 support points: weight on both / drifted to one side, positions apart / merged *)
+Pats2 == {<<1, 1, 0, 1>>, <<2, 0, 0, 1>>, <<0, 2, 0, 1>>, <<1, 1, 1, 1>>}
+Pats2s == {<<1, 1, 0, 1>>, <<2, 0, 0, 1>>, <<1, 1, 1, 1>>}
+(* 3 support points: the weight leaves point 0, then point 1; positions 1,2 merge, then 0 joins *)
+Pats3 == {<<1, 1, 1, 0, 1, 2>>, <<0, 2, 1, 0, 1, 2>>, <<0, 0, 3, 0, 1, 2>>, <<1, 1, 1, 0, 1, 1>>, <<1, 1, 1, 1, 1, 1>>, <<0, 1, 2, 0, 0, 2>>}
+Pats3s == {<<1, 1, 1, 0, 1, 2>>, <<0, 2, 1, 0, 1, 2>>, <<1, 1, 1, 0, 1, 1>>, <<0, 1, 2, 0, 0, 2>>}
+MPoints22 == PointsOf(Pats2, 2)
+MPoints22s == {a \o b : a \in Pats2, b \in Pats2s}
+MPoints13 == Pats3
+MPoints22q == {a \o b : a \in Pats2, b \in {<<1, 1, 0, 1>>, <<2, 0, 1, 1>>}} \cup {<<1, 1, 0, 1, 0, 2, 0, 1>>, <<2, 0, 0, 1, 1, 1, 1, 1>>}
+MPoints33s == {a \o b \o c : a \in Pats3s, b \in {<<1, 1, 1, 0, 1, 2>>, <<0, 0, 3, 0, 1, 1>>}, c \in {<<1, 1, 1, 0, 1, 2>>}}
+
+(* both conditions, no masks (None becomes dict), tolerance 0 *)
+MBoth22   == MConf(<<2, 2>>, TRUE, TRUE, Tol0, 1, Tol0, 1, NoMMask, NoMMask)
+(* tolerance 1 on the weights (a weight of one unit counts as collapsed), window 2; positions exact, window 1 *)
+MLoose22  == MConf(<<2, 2>>, TRUE, TRUE, Tol1, 2, Tol0, 1, MMask("dict", {}), MMask("dict", {}))
+(* masks given at construction in the set / where formats (a position pair in reverse orientation) *)
+MSet22    == MConf(<<2, 2>>, TRUE, TRUE, Tol0, 1, Tol0, 2, MMask("set", {<<0, 1>>}), MMask("set", {<<1, <<1, 0>>>>}))
+MWhere22  == MConf(<<2, 2>>, TRUE, TRUE, Tol0, 1, Tol0, 1, MMask("where", {<<1, 0>>}), MMask("where", {}))
+(* one condition only *)
+MWtOnly22 == MConf(<<2, 2>>, TRUE, FALSE, Tol0, 2, Tol0, 1, NoMMask, NoMMask)
+MPsOnly22 == MConf(<<2, 2>>, FALSE, TRUE, Tol0, 1, Tol0, 2, NoMMask, NoMMask)
+(* 3 support points; weight 1 of factor 0 masked from the start: a tracked pair (0,1) followed by the collapse of weight 0 alone; *)
+(* the pair (0,1) masked: chained tracked pairs by successive collapses                                                      *)
+MBoth13   == MConf(<<1, 3>>, TRUE, TRUE, Tol0, 1, Tol0, 1, NoMMask, NoMMask)
+MLead13   == MConf(<<1, 3>>, TRUE, TRUE, Tol0, 1, Tol0, 1, MMask("dict", {<<0, 1>>}), NoMMask)
+MChain13  == MConf(<<1, 3>>, FALSE, TRUE, Tol0, 1, Tol0, 1, NoMMask, MMask("dict", {<<0, <<0, 1>>>>}))
+MBoth33   == MConf(<<3, 3>>, TRUE, TRUE, Tol0, 1, Tol0, 1, NoMMask, MMask("dict", {}))
+
+(* tolerance 1 on weights in units {0,1,2}: both weights of a factor <<1,1>> collapse at once (nothing is demanded of such a factor) *)
+MFull13   == MConf(<<1, 3>>, TRUE, FALSE, Tol1, 1, Tol0, 1, NoMMask, NoMMask)
+MPoints22t == {a \o b : a \in {<<1, 1, 0, 1>>, <<2, 0, 0, 1>>, <<0, 2, 1, 1>>}, b \in {<<2, 1, 0, 1>>}}
+MPoints13t == Pats3 \cup {<<2, 1, 0, 0, 1, 2>>, <<3, 0, 0, 2, 1, 0>>, <<1, 0, 2, 1, 0, 1>>}
+MConfsWin22 == {MLoose22, MSet22}
+MConfs13w == {MBoth13, MLead13, MChain13, MFull13}
+MConfs13t == {MBoth13, MLead13, MChain13, MFull13,
+              MConf(<<1, 3>>, TRUE, TRUE, Tol1, 1, Tol1, 1, MMask("where", {<<0, 2>>}), MMask("set", {<<0, <<2, 0>>>>}))}
+MConfs22 == {MBoth22, MLoose22, MSet22, MWhere22, MWtOnly22, MPsOnly22}
+MConfs22q == {MBoth22}
+MConfs13 == {MBoth13, MLead13, MChain13}
+MConfs33 == {MBoth33}
+MConfsOne == {MBoth13}
 =============================================================================
